@@ -93,7 +93,7 @@ func vp9Key(profile int, twelveBit bool, colorRange bool, ssx, ssy bool, width, 
 // that differ in exactly one of the components the muxer watches ("" = the two reference sets, which differ in all).
 func (c muxCfg) pset(kind string, p int) paramSet {
 	switch kind {
-	case "h264", "h264b", "h264k":
+	case "h264", "h264b", "h264k", "h264bk":
 		base := h264ParamsOf(kind)
 		out := base[0]
 		if p == 1 {
@@ -193,10 +193,15 @@ func init() {
 	}
 }
 
-func isH264(kind string) bool { return kind == "h264" || kind == "h264b" || kind == "h264k" }
+func isH264(kind string) bool {
+	return kind == "h264" || kind == "h264b" || kind == "h264k" || kind == "h264bk"
+}
+
+// isH264B: H264 with reordered frames (h264bk: on a millisecond clock, MPEG-TS only).
+func isH264B(kind string) bool { return kind == "h264b" || kind == "h264bk" }
 
 func h264ParamsOf(kind string) []paramSet {
-	if kind == "h264b" {
+	if isH264B(kind) {
 		return h264bParams
 	}
 	return h264Params
@@ -306,7 +311,7 @@ type trackSpec struct {
 
 func (t trackSpec) video() bool {
 	switch t.Kind {
-	case "h264", "h264b", "h264k", "h265", "h265b", "vp9", "av1":
+	case "h264", "h264b", "h264k", "h264bk", "h265", "h265b", "vp9", "av1":
 		return true
 	}
 	return false
@@ -320,7 +325,7 @@ func (t trackSpec) clock() int {
 		return 48000
 	case "aac16":
 		return 16000
-	case "h264k": // H264 on a millisecond clock (MPEG-TS only: the muxer rescales to 90 kHz; fMP4 tracks keep their timescale)
+	case "h264k", "h264bk": // H264 on a millisecond clock (MPEG-TS only: the muxer rescales to 90 kHz; fMP4 tracks keep their timescale)
 		return 1000
 	case "aacsbr": // HE-AAC, explicit SBR signalling: 24 kHz core (the track's clock and timescale), 48 kHz extension
 		return 24000
@@ -435,7 +440,7 @@ func newTrackCfg(c muxCfg, t trackSpec) *Track {
 	switch t.Kind {
 	case "h264", "h264k":
 		tr.Codec = &codecs.H264{SPS: bytes.Clone(h264Params[0].sps), PPS: bytes.Clone(h264Params[0].pps)}
-	case "h264b":
+	case "h264b", "h264bk":
 		tr.Codec = &codecs.H264{SPS: bytes.Clone(h264bParams[0].sps), PPS: bytes.Clone(h264bParams[0].pps)}
 	case "h265":
 		tr.Codec = &codecs.H265{VPS: bytes.Clone(h265Params[0].vps), SPS: bytes.Clone(h265Params[0].sps), PPS: bytes.Clone(h265Params[0].pps)}
@@ -553,14 +558,14 @@ func (mi *muxInst) videoData(u wunit) [][]byte {
 	if u.NoSlice {
 		ps := mi.cfg.pset(kind, p)
 		switch kind {
-		case "h264", "h264b", "h264k":
+		case "h264", "h264b", "h264k", "h264bk":
 			return [][]byte{ps.sps, ps.pps}
 		case "h265", "h265b":
 			return [][]byte{ps.vps, ps.sps, ps.pps}
 		}
 	}
 	switch kind {
-	case "h264b":
+	case "h264b", "h264bk":
 		if u.Params != 0 {
 			au = append(au, mi.cfg.pset(kind, p).sps, mi.cfg.pset(kind, p).pps)
 		}
@@ -636,7 +641,7 @@ func (mi *muxInst) write(u wunit) error {
 	tr := mi.tracks[u.Track]
 	ntp := mi.ntpOf(u)
 	switch mi.cfg.Tracks[u.Track].Kind {
-	case "h264", "h264b", "h264k":
+	case "h264", "h264b", "h264k", "h264bk":
 		return mi.m.WriteH264(tr, ntp, u.DTS, mi.videoData(u))
 	case "h265", "h265b":
 		return mi.m.WriteH265(tr, ntp, u.DTS, mi.videoData(u))
